@@ -389,4 +389,316 @@ Section Inv.
           rewrite cold_other by (unfold COLD; discriminate). apply HI1.
         * destruct e; try (apply recover_wp; exact HI1); try (apply post_notop; [exact HI1|]); [apply not_op_panic|apply not_op_cancel].
   Qed.
+
+  Lemma need_nl k : x_listen x = false -> need x k = need (no_listen x) k.
+  Proof. intros H. unfold need, no_listen. cbn. rewrite H. reflexivity. Qed.
+  Lemma ready_of_agree d m : Inv d m -> (dmode d = MTx \/ dmode d = MCad \/ dmode d = MListen \/ exists rm, dmode d = MRx rm /\ is_duty (MRx rm) = false) -> ready m.
+  Proof.
+    intros [_ [A _]] D. split; intros E; rewrite E in A; cbn in A.
+    - destruct D as [D|[D|[D|[rm [D _]]]]]; rewrite D in A; discriminate A.
+    - exfalso. destruct A as [a [b A]]. destruct D as [D|[D|[D|[rm [D Du]]]]]; rewrite D in A; try discriminate A. injection A as ->. discriminate Du.
+  Qed.
+
+  (* ---- tx *)
+  Theorem tx_keeps fuel d m : x_listen x = false -> Inv d m -> wp x (tx K fuel) (post d) d m.
+  Proof.
+    intros NL HI. unfold tx. apply wp_get_mode. destruct (dmode d) eqn:D; try (cbn [wp]; apply post_notop; [exact HI|apply not_op_mode]).
+    apply wp_bind. apply (ok_tx x K KO); [apply HI|apply (ready_of_agree d); [exact HI|left; exact D]| |].
+    { rewrite need_nl by exact NL. destruct HI as [_ [_ [_ [P _]]]]. rewrite D in P. exact P. }
+    intros r m1 O1 L1 S1 M1 P1.
+    assert (HI1 : Inv d m1).
+    { destruct HI as [O [A [C [P N]]]]. split; [exact O1|]. split; [rewrite D; destruct M1 as [-> | ->]; [rewrite D in A; exact A|reflexivity]|].
+      split; [intros Hc; eapply valid_all_le; [exact L1|apply C, Hc]|]. split; [eapply prepared_le; [exact L1|exact P]|].
+      intros F. destruct M1 as [-> | ->]; [apply N, F|discriminate]. }
+    destruct r as [[]|e]; [apply tx_loop_wp; assumption|apply post_pin; [exact HI1|apply P1; reflexivity]].
+  Qed.
+
+  (* ---- prepare_for_rx *)
+  Theorem prepare_for_rx_keeps rm md pk d m : Inv d m -> wp x (prepare_for_rx K rm md pk) (post d) d m.
+  Proof.
+    intros HI. unfold prepare_for_rx. apply wp_bind. apply prepare_modem_wp; [exact HI| |].
+    2:{ intros e d1 m1 HI1 [P|[D1 [C1 _]]] _; [apply post_pin; assumption|apply post_stby; assumption]. }
+    intros d1 m1 HI1 D1 C1 K1.
+    apply seq_stby with (E := plain_err) (want := it_mod x K KO); [apply (ok_mod x K KO)|exact HI1|exact D1|exact C1|]. intros [] m2 HI2 C2 L2 V2.
+    apply seq_stby with (E := plain_err) (want := it_pkt x K KO); [apply (ok_pkt x K KO)|exact HI2|exact D1|exact C2|]. intros [] m3 HI3 C3 L3 V3.
+    apply seq_stby with (E := plain_err) (want := it_chan x K KO); [apply (ok_chan x K KO)|exact HI3|exact D1|exact C3|]. intros [] m4 HI4 C4 L4 V4.
+    apply wp_set_mode.
+    assert (HI5 : Inv (set_nth_list d1 0 (enc_mode (MRx rm))) m4).
+    { destruct HI4 as [O4 [A4 [B4 [P4 N4]]]]. split; [exact O4|]. rewrite dmode_set_mode. split; [rewrite C4; exact I|].
+      rewrite cold_other by (unfold COLD; discriminate). split; [exact B4|]. split; [|exact N4].
+      cbn [prepared]. apply (cover_rx x K KO). specialize (B4 K1). unfold it_base in B4.
+      apply valid_all_app in B4. destruct B4 as [Bi B4]. apply valid_all_app in B4. destruct B4 as [Bp Bq].
+      repeat (apply valid_all_app; split); try assumption.
+      - apply (valid_all_le m2); [|exact V2]. intros i Hi. apply L4, L3, Hi.
+      - apply (valid_all_le m3); [|exact V3]. intros i Hi. apply L4, Hi. }
+    apply (ok_irq x K KO); [apply HI5|apply ready_stby, C4|]. intros r m5 L5 _ E5.
+    assert (HI6 : Inv (set_nth_list d1 0 (enc_mode (MRx rm))) m5) by (eapply Inv_move; [exact HI5|apply L5|apply L5|left; apply L5]).
+    destruct r as [[]|e]; [apply post_ok; exact HI6|apply post_pin; [exact HI6|apply E5; reflexivity]].
+  Qed.
+
+  (* ---- start_rx / rx_switch_channel *)
+  Lemma agree_rx_target rm : agree (MRx rm) (rx_target rm).
+  Proof. destruct rm as [n| |a b]; cbn; [exists n; reflexivity|left; reflexivity|exists a, b; reflexivity]. Qed.
+  Lemma agree_rx_cases rm c : agree (MRx rm) c -> c = CStby \/ c = rx_target rm.
+  Proof.
+    destruct c; cbn; intros H; try discriminate H; try contradiction; try (left; reflexivity).
+    - destruct H as [n H]. injection H as ->. right; reflexivity.
+    - destruct H as [H|H]; [injection H as ->; right; reflexivity|discriminate H].
+    - destruct H as [a [b H]]. injection H as ->. right; reflexivity.
+  Qed.
+
+  (* the reception is (re)started from a state in which the chip accepts commands *)
+  Lemma post_err_cast A B d0 e d' m' : post (A := A) d0 (inr e) d' m' -> post (A := B) d0 (inr e) d' m'.
+  Proof. intros [H C]. split; [exact H|]. intros e0 Eq O. injection Eq as <-. apply (C e eq_refl O). Qed.
+
+  Lemma do_rx_wp' rm d0 d m (Q : unit + rerr -> drv -> mon -> Prop) : x_listen x = false -> Inv d m -> dmode d = MRx rm -> ready m -> (dmode d0 = dmode d) ->
+    (forall m', Inv d m' -> Q (inl tt) d m') -> (forall e m', post (A := unit) d0 (inr e) d m' -> Q (inr e) d m') ->
+    wp x (k_rx K rm) Q d m.
+  Proof.
+    intros NL HI D R D0 Hs Hf. apply (ok_rx x K KO); [apply HI|exact R| |].
+    { rewrite need_nl by exact NL. destruct HI as [_ [_ [_ [P _]]]]. rewrite D in P. exact P. }
+    intros r m1 O1 L1 S1 M1 N1 P1.
+    assert (HI1 : Inv d m1).
+    { destruct HI as [O [A [C [P N]]]]. split; [exact O1|]. split; [rewrite D; destruct M1 as [-> | ->]; [rewrite D in A; exact A|apply agree_rx_target]|].
+      split; [intros Hc; eapply valid_all_le; [exact L1|apply C, Hc]|]. split; [eapply prepared_le; [exact L1|exact P]|].
+      intros F E. apply (N F). apply (N1 F E). }
+    destruct r as [[]|e]; [apply Hs; exact HI1|]. apply Hf. destruct (P1 e eq_refl) as [P|[P|[-> [E1 [F Du]]]]]; try (apply post_pin; [exact HI1|tauto]).
+    apply post_same; [exact HI1| |congruence|intros [T|T]; discriminate T].
+    rewrite E1. destruct HI as [_ [A [_ [_ N]]]]. rewrite D in A. destruct (agree_rx_cases _ _ A) as [C|C]; [exact C|].
+    exfalso. destruct rm; try discriminate Du. apply (N F). exact C.
+  Qed.
+  Lemma do_rx_wp rm d0 d m : x_listen x = false -> Inv d m -> dmode d = MRx rm -> ready m -> (dmode d0 = dmode d) ->
+    wp x (k_rx K rm) (post d0) d m.
+  Proof. intros NL HI D R D0. apply do_rx_wp' with (d0 := d0); try assumption; [intros m' H; apply post_ok, H|intros e m' H; exact H]. Qed.
+
+  Theorem start_rx_keeps d m : x_listen x = false -> Inv d m -> wp x (start_rx K) (post d) d m.
+  Proof.
+    intros NL HI. unfold start_rx. apply wp_get_mode. destruct (dmode d) eqn:D; try (cbn [wp]; apply post_notop; [exact HI|apply not_op_mode]).
+    apply wp_bind. rewrite <- D. apply ensure_wp; [exact HI| |intros e m1 HI1 P; apply post_pin; assumption].
+    intros m1 HI1 L1 R1. apply do_rx_wp; [exact NL|exact HI1|exact D| |reflexivity].
+    apply R1. destruct (x_fam x) eqn:F; [left; reflexivity|right]. apply (ready_127 d); [exact HI|exact F|rewrite D; discriminate].
+  Qed.
+
+  Theorem rx_switch_channel_keeps f d m : x_listen x = false -> Inv d m -> wp x (rx_switch_channel K f) (post d) d m.
+  Proof.
+    intros NL HI. unfold rx_switch_channel. apply wp_get_mode. destruct (dmode d) eqn:D; try (cbn [wp]; apply post_notop; [exact HI|apply not_op_mode]).
+    apply wp_bind. rewrite <- D. apply ensure_wp; [exact HI| |intros e m1 HI1 P; apply post_pin; assumption].
+    intros m1 HI1 L1 R1. apply wp_bind. apply (ok_standby x K KO); [apply HI1|intros F; apply R1; left; exact F|].
+    intros r m2 O2 L2 S2 M2 P2.
+    assert (HI2 : Inv d m2). { eapply Inv_move; [exact HI1|exact O2|exact L2|]. destruct M2 as [M|M]; [left; exact M|right; left; exact M]. }
+    destruct r as [[]|e]; [|apply post_pin; [exact HI2|apply P2; reflexivity]]. specialize (S2 I).
+    apply seq_prepared with (E := plain_err) (want := it_chan x K KO); [apply (ok_chan x K KO)|exact HI2|exact S2| |].
+    { intros e Ee. right. split; [reflexivity|apply plain_not_timeout, Ee]. }
+    intros [] m3 HI3 C3 L3 _. apply do_rx_wp; [exact NL|exact HI3|exact D|apply ready_stby, C3|reflexivity].
+  Qed.
+
+  (* ---- complete_rx *)
+  Lemma rx_not_sleep d m rm : Inv d m -> dmode d = MRx rm -> cm m <> CSleep.
+  Proof. intros [_ [A _]] D E. rewrite E, D in A. discriminate A. Qed.
+
+  Lemma complete_rx_loop_wp pk buflen d0 rm : forall fuel d m, Inv d m -> dmode d = MRx rm -> dmode d0 = MRx rm ->
+    wp x (complete_rx_loop K fuel pk buflen) (post d0) d m.
+  Proof.
+    induction fuel as [|fuel IH]; intros d m HI D D0; cbn [complete_rx_loop].
+    - cbn [wp]. apply post_notop; [exact HI|apply not_op_panic].
+    - apply wp_get_mode. rewrite D. apply wp_bind. apply wp_attempt; [apply (ok_nocancel x K KO)|].
+      assert (AT : cm m = CStby \/ cm m = rx_target rm) by (apply agree_rx_cases; destruct HI as [_ [A _]]; rewrite D in A; exact A).
+      apply (ok_procirq x K KO); [apply HI|apply (rx_not_sleep d m rm); assumption| |].
+      { intros E. destruct AT as [C|C]; [congruence|]. rewrite E in C. destruct rm; try discriminate C. reflexivity. }
+      intros r m1 O1 L1 M1 Dn Pr NC.
+      assert (HI1 : Inv d m1). { eapply Inv_move; [exact HI|exact O1|exact L1|]. destruct M1 as [M|M]; [left; exact M|right; left; exact M]. }
+      assert (WAIT : wp x (iv IvIrq ;;; complete_rx_loop K fuel pk buflen) (post d0) d m1).
+      { cbn [bind iv act1 wp]. split; [|split].
+        - apply post_notop; [apply Inv_time; exact HI1|apply not_op_cancel].
+        - apply post_pin; [exact HI1|right; reflexivity].
+        - apply IH; [apply Inv_awake, HI1|exact D|exact D0]. }
+      unfold attempt_post. destruct r as [[| |c]|e]; try exact WAIT.
+      + (* a packet: read it out *)
+        assert (R1 : ready m1 /\ (rm = RxContinuous \/ cm m1 = CStby)).
+        { destruct rm as [n| |a b].
+          - assert (C1 : cm m1 = CStby). { destruct AT as [E|E]; [destruct M1 as [M|M]; congruence|]. apply (Dn c eq_refl eq_refl). rewrite E. reflexivity. }
+            split; [apply ready_stby, C1|right; exact C1].
+          - split; [|left; reflexivity]. split; intros E; destruct AT as [C|C]; destruct M1 as [M|M]; cbn in C; congruence.
+          - assert (C1 : cm m1 = CStby). { destruct AT as [E|E]; [destruct M1 as [M|M]; congruence|]. apply (Dn c eq_refl eq_refl). rewrite E. reflexivity. }
+            split; [apply ready_stby, C1|right; exact C1]. }
+        destruct R1 as [R1 W1].
+        assert (FAIL : forall e m', prog_le m1 m' -> plain_err e -> post (A := N * list N * (Z * Z)) d0 (inr e) d m').
+        { intros e m' L Ee. assert (HI' : Inv d m') by (eapply Inv_move; [exact HI1|apply L|apply L|left; apply L]).
+          destruct W1 as [-> |C1].
+          - split; [exact HI'|]. intros e0 _ _. left. split; [exact D0|congruence].
+          - apply post_same; [exact HI'|destruct L as [L _]; congruence|congruence|apply plain_not_timeout, Ee]. }
+        apply seq_plain with (E := plain_err) (want := []); [apply (ok_rxpayload x K KO)|exact O1|exact R1| |exact FAIL].
+        intros dat m2 L2 _. apply seq_plain with (E := plain_err) (want := []); [apply (ok_status x K KO)|apply L2|eapply prog_le_ready; [exact L2|exact R1]| |].
+        * intros st m3 L3 _. cbn [wp]. apply post_ok. pose proof (prog_le_trans _ _ _ L2 L3) as L. eapply Inv_move; [exact HI1|apply L|apply L|left; apply L].
+        * intros e m3 L3 Ee. apply FAIL; [eapply prog_le_trans; eassumption|exact Ee].
+      + (* an error from the interrupt status *)
+        assert (ERR : forall e0, wp x (if rmode_eqb (MRx rm) (MRx RxContinuous) then Fail e0 else recover K e0) (post (A := N * list N * (Z * Z)) d0) d m1).
+        { intros e0. destruct (rmode_eqb (MRx rm) (MRx RxContinuous)) eqn:EC.
+          - apply rmode_eqb_cont in EC. cbn [wp]. split; [exact HI1|]. intros e1 _ _. left. split; [congruence|congruence].
+          - apply recover_wp. exact HI1. }
+        destruct e; try apply ERR; (apply post_notop; [exact HI1|]); [apply not_op_panic|apply not_op_cancel].
+  Qed.
+
+  Theorem complete_rx_keeps fuel pk buflen d m : Inv d m -> wp x (complete_rx K fuel pk buflen) (post d) d m.
+  Proof.
+    intros HI. unfold complete_rx. apply wp_get_mode. destruct (dmode d) eqn:D; try (cbn [wp]; apply post_notop; [exact HI|apply not_op_mode]).
+    apply (complete_rx_loop_wp pk buflen d m0); assumption.
+  Qed.
+
+  Theorem rx_keeps fuel pk buflen d m : x_listen x = false -> Inv d m -> wp x (rx K fuel pk buflen) (post d) d m.
+  Proof.
+    intros NL HI. unfold rx, start_rx. cbn [bind get_mode act1 wp]. fold (dmode d).
+    destruct (dmode d) eqn:D; try (cbn [bind wp]; apply post_notop; [exact HI|apply not_op_mode]).
+    apply wp_bind. apply wp_bind. rewrite <- D. apply ensure_wp; [exact HI| |intros e m1 HI1 P; apply post_pin; assumption].
+    intros m1 HI1 L1 R1. apply do_rx_wp' with (d0 := d); [exact NL|exact HI1|exact D| |reflexivity| |].
+    - apply R1. destruct (x_fam x) eqn:F; [left; reflexivity|right]. apply (ready_127 d); [exact HI|exact F|rewrite D; discriminate].
+    - intros m2 HI2. apply complete_rx_keeps. exact HI2.
+    - intros e m2 H. eapply post_err_cast. exact H.
+  Qed.
+
+  (* ---- sleep *)
+  Theorem sleep_keeps warm d m : Inv d m -> wp x (sleep K warm) (post d) d m.
+  Proof.
+    intros HI. unfold sleep. apply wp_get_mode. destruct (rmode_eqb (dmode d) MSleep) eqn:ES; [cbn [wp]; apply post_ok, HI|].
+    apply wp_bind. apply ensure_wp; [exact HI| |intros e m1 HI1 P; apply post_pin; assumption].
+    intros m1 HI1 L1 R1. apply wp_bind. apply (ok_sleep x K KO); [apply HI1|intros F; apply R1; left; exact F|].
+    intros r m2 S2 F2 P2. destruct r as [[]|e].
+    - destruct (S2 I) as [O2 [C2 W2]]. destruct warm.
+      + cbn [bind set_mode act1 wp]. apply post_ok. destruct HI1 as [O1 [A1 [B1 [P1 N1]]]]. split; [exact O2|]. rewrite dmode_set_mode.
+        split; [rewrite C2; reflexivity|]. rewrite cold_other by (unfold COLD; discriminate).
+        split; [intros Hc; eapply valid_all_le; [apply W2; reflexivity|apply B1, Hc]|]. split; [exact I|]. intros _. rewrite C2. discriminate.
+      + apply wp_set_flag. cbn [set_mode act1 wp]. apply post_ok. split; [exact O2|]. rewrite dmode_set_mode. split; [rewrite C2; reflexivity|].
+        rewrite cold_other by (unfold COLD; discriminate). unfold cold. rewrite (dflag_set_same d COLD true).
+        split; [intros Hc; discriminate Hc|]. split; [exact I|]. intros _. rewrite C2. discriminate.
+    - assert (E2 : m2 = m1) by (apply F2; intros H; exact H). subst m2. apply post_pin; [exact HI1|apply P2; reflexivity].
+  Qed.
+
+  (* ---- init *)
+  Theorem init_keeps d m : Inv d m -> wp x (init K) (post d) d m.
+  Proof.
+    intros HI. unfold init. apply wp_set_flag. apply wp_get_mode. apply wp_set_mode.
+    set (d1 := set_nth_list (set_nth_list d COLD [1%N]) 0 (enc_mode MSleep)).
+    assert (D1 : dmode d1 = MSleep) by (unfold d1; apply dmode_set_mode).
+    assert (K1 : cold d1 = true). { unfold d1. rewrite cold_other by (unfold COLD; discriminate). unfold cold. exact (dflag_set_same d COLD true). }
+    assert (INV1 : forall m', okm m' -> (cm m' = CStby \/ cm m' = CSleep) -> Inv d1 m').
+    { intros m' O' C'. split; [exact O'|]. rewrite D1. split; [destruct C' as [-> | ->]; reflexivity|]. split; [intros Hc; rewrite K1 in Hc; discriminate Hc|].
+      split; [exact I|]. intros _. destruct C' as [-> | ->]; discriminate. }
+    apply wp_bind. apply (ok_reset x K KO); [apply HI|]. intros r m1 O1 C1 P1.
+    assert (HI1 : Inv d1 m1) by (apply INV1; [exact O1|destruct C1 as [C|[C _]]; [left|right]; exact C]).
+    destruct r as [[]|e]; [|apply post_pin; [exact HI1|apply P1; reflexivity]].
+    apply wp_bind. rewrite dmode_set_other by (unfold COLD; discriminate).
+    apply (ok_ensure x K KO); [exact O1| | |].
+    { intros E. destruct C1 as [C|[_ F]]; [congruence|right; exact F]. }
+    { intros E. destruct C1 as [C|[C _]]; congruence. }
+    intros r m2 O2 L2 M2 R2 P2.
+    assert (C2 : cm m2 = CStby \/ cm m2 = CSleep). { destruct M2 as [M|[_ M]]; [|left; exact M]. destruct C1 as [C|[C _]]; [left|right]; congruence. }
+    assert (HI2 : Inv d1 m2) by (apply INV1; assumption).
+    destruct r as [[]|e]; [|apply post_pin; [exact HI2|apply P2; reflexivity]].
+    apply wp_bind. apply (ok_standby x K KO); [exact O2|intros F; apply R2; [exact I|left; exact F]|].
+    intros r m3 O3 L3 S3 M3 P3.
+    assert (C3 : cm m3 = CStby \/ cm m3 = CSleep). { destruct M3 as [M|M]; [|left; exact M]. destruct C2 as [C|C]; [left|right]; congruence. }
+    destruct r as [[]|e]; [|apply post_pin; [apply INV1; assumption|apply P3; reflexivity]]. specialize (S3 I).
+    apply wp_set_mode. set (d3 := set_nth_list d1 0 (enc_mode MStandby)).
+    assert (D3 : dmode d3 = MStandby) by (unfold d3; apply dmode_set_mode).
+    assert (K3 : cold d3 = true) by (unfold d3; rewrite cold_other by (unfold COLD; discriminate); exact K1).
+    apply cold_start_wp; [exact O3|exact S3|exact D3| |].
+    - intros d4 m4 O4 C4 V4 D4 K4. apply post_ok. apply Inv_standby; [exact O4|exact C4|intros _; exact V4|exact D4].
+    - intros e m4 O4 C4 _. apply post_stby; [|exact C4|exact D3]. apply Inv_standby; [exact O4|exact C4| |exact D3]. intros Hc. rewrite K3 in Hc. discriminate Hc.
+  Qed.
+
+  (* ---- set_lora_sync_word *)
+  Theorem sync_keeps sw d m : Inv d m -> wp x (set_lora_sync_word K sw) (post d) d m.
+  Proof.
+    intros HI. unfold set_lora_sync_word. apply wp_get_mode. apply wp_bind. apply ensure_wp; [exact HI| |intros e m1 HI1 P; apply post_pin; assumption].
+    intros m1 HI1 L1 R1. apply wp_bind. apply to_standby_wp; [exact HI1|intros F; apply R1; left; exact F| |intros e m2 HI2 P; apply post_pin; assumption].
+    intros d2 m2 HI2 D2 C2 L2 F2.
+    apply seq_stby with (E := plain_err) (want := it_sync x K KO); [apply (ok_sync x K KO)|exact HI2|exact D2|exact C2|]. intros [] m3 HI3 C3 L3 V3.
+    cbn [set_syncw act1 wp]. apply post_ok. destruct HI3 as [O3 [A3 [B3 [P3 N3]]]]. split; [exact O3|].
+    rewrite dmode_set_other by discriminate. split; [exact A3|]. rewrite cold_other by (unfold COLD; discriminate). split; [exact B3|]. split; [exact P3|exact N3].
+  Qed.
+
+  (* ---- prepare_for_cad / cad *)
+  Theorem prepare_for_cad_keeps md d m : Inv d m -> wp x (prepare_for_cad K md) (post d) d m.
+  Proof.
+    intros HI. unfold prepare_for_cad. apply wp_bind. apply prepare_modem_wp; [exact HI| |].
+    2:{ intros e d1 m1 HI1 [P|[D1 [C1 _]]] _; [apply post_pin; assumption|apply post_stby; assumption]. }
+    intros d1 m1 HI1 D1 C1 K1.
+    apply seq_stby with (E := plain_err) (want := it_mod x K KO); [apply (ok_mod x K KO)|exact HI1|exact D1|exact C1|]. intros [] m2 HI2 C2 L2 V2.
+    apply seq_stby with (E := plain_err) (want := it_chan x K KO); [apply (ok_chan x K KO)|exact HI2|exact D1|exact C2|]. intros [] m3 HI3 C3 L3 V3.
+    apply wp_set_mode.
+    assert (HI4 : Inv (set_nth_list d1 0 (enc_mode MCad)) m3).
+    { destruct HI3 as [O3 [A3 [B3 [P3 N3]]]]. split; [exact O3|]. rewrite dmode_set_mode. split; [rewrite C3; exact I|].
+      rewrite cold_other by (unfold COLD; discriminate). split; [exact B3|]. split; [|exact N3].
+      cbn [prepared]. apply (cover_cad x K KO). specialize (B3 K1). unfold it_base in B3.
+      apply valid_all_app in B3. destruct B3 as [Bi B3]. apply valid_all_app in B3. destruct B3 as [Bp Bq].
+      repeat (apply valid_all_app; split); try assumption.
+      apply (valid_all_le m2); [|exact V2]. intros i Hi. apply L3, Hi. }
+    apply (ok_irq x K KO); [apply HI4|apply ready_stby, C3|]. intros r m4 L4 _ E4.
+    assert (HI5 : Inv (set_nth_list d1 0 (enc_mode MCad)) m4) by (eapply Inv_move; [exact HI4|apply L4|apply L4|left; apply L4]).
+    destruct r as [[]|e]; [apply post_ok; exact HI5|apply post_pin; [exact HI5|apply E4; reflexivity]].
+  Qed.
+
+  Lemma agree_cad c : agree MCad c -> c = CStby \/ c = CCad.
+  Proof.
+    destruct c; cbn; intros H; try discriminate H; try contradiction; try (left; reflexivity); try (right; reflexivity).
+    - destruct H as [n H]; discriminate H.
+    - destruct H as [H|H]; discriminate H.
+    - destruct H as [a [b H]]; discriminate H.
+  Qed.
+
+  Theorem cad_keeps md d m : (md_sf md < 8)%N -> Inv d m -> wp x (cad K md) (post d) d m.
+  Proof.
+    intros SF HI. unfold cad. apply wp_get_mode. destruct (dmode d) eqn:D; try (cbn [wp]; apply post_notop; [exact HI|apply not_op_mode]).
+    apply wp_bind. apply (ok_cad x K KO); [exact SF|apply HI|apply (ready_of_agree d); [exact HI|right; left; exact D]| |].
+    { destruct HI as [_ [_ [_ [P _]]]]. rewrite D in P. exact P. }
+    intros r m1 O1 L1 S1 M1 E1.
+    assert (HI1 : Inv d m1).
+    { destruct HI as [O [A [C [P N]]]]. split; [exact O1|]. split; [rewrite D; destruct M1 as [-> | ->]; [rewrite D in A; exact A|reflexivity]|].
+      split; [intros Hc; eapply valid_all_le; [exact L1|apply C, Hc]|]. split; [eapply prepared_le; [exact L1|exact P]|].
+      intros F. destruct M1 as [-> | ->]; [apply N, F|discriminate]. }
+    destruct r as [[]|e].
+    2:{ apply post_pin; [exact HI1|apply E1; reflexivity]. }
+    specialize (S1 I). cbn [bind iv act1 wp]. split; [|split].
+    - apply post_notop; [apply Inv_time; exact HI1|apply not_op_cancel].
+    - apply post_pin; [exact HI1|right; reflexivity].
+    - apply wp_bind. apply wp_attempt; [apply (ok_nocancel x K KO)|].
+      assert (HIa : Inv d (with_awake m1 true)) by (apply Inv_awake, HI1).
+      apply (ok_procirq x K KO); [apply HIa| | |].
+      { change (cm (mon_event x m1 (TIv IvIrq))) with (cm m1). rewrite S1. discriminate. }
+      { intros _. reflexivity. }
+      intros r m2 O2 L2 M2 Dn Pr NC. change (cm (mon_event x m1 (TIv IvIrq))) with (cm m1) in *.
+      assert (HI2 : Inv d m2). { eapply Inv_move; [exact HIa|exact O2|exact L2|]. destruct M2 as [M|M]; [left; exact M|right; left; exact M]. }
+      unfold attempt_post. destruct r as [[| |c]|e]; try (cbn [wp]; apply post_notop; [exact HI2|apply not_op_panic]).
+      + assert (C2 : cm m2 = CStby). { apply (Dn c eq_refl eq_refl). rewrite S1. reflexivity. }
+        apply wp_bind. apply (ok_standby x K KO); [exact O2|intros _; apply ready_stby, C2|]. intros r m3 O3 L3 S3 M3 P3.
+        assert (HI3 : Inv d m3). { eapply Inv_move; [exact HI2|exact O3|exact L3|]. destruct M3 as [M|M]; [left; exact M|right; left; exact M]. }
+        destruct r as [[]|e]; [|apply post_pin; [exact HI3|apply P3; reflexivity]]. specialize (S3 I).
+        apply wp_set_mode. cbn [wp]. apply post_ok. apply Inv_standby; [exact O3|exact S3| |apply dmode_set_mode].
+        rewrite cold_other by (unfold COLD; discriminate). apply HI3.
+      + destruct e; try (apply recover_wp; exact HI2); (apply post_notop; [exact HI2|]); [apply not_op_panic|apply not_op_cancel].
+  Qed.
+
+  (* ---- listen (a carrier-sense reception: the monitor context of this operation has x_listen = true) *)
+  Theorem listen_keeps f bw d m : x_listen x = true -> Inv d m -> wp x (listen K f bw) (post d) d m.
+  Proof.
+    intros LI HI. unfold listen. apply wp_bind. apply prepare_modem_wp; [exact HI| |].
+    2:{ intros e d1 m1 HI1 [P|[D1 [C1 _]]] _; [apply post_pin; assumption|apply post_stby; assumption]. }
+    intros d1 m1 HI1 D1 C1 K1.
+    apply seq_stby with (E := plain_err) (want := it_chan x K KO); [apply (ok_chan x K KO)|exact HI1|exact D1|exact C1|]. intros [] m2 HI2 C2 L2 V2.
+    destruct (k_create_mod K 2 bw 0 f) as [md|e]; cbn [of_res bind]; [|apply post_stby; assumption].
+    apply seq_stby with (E := plain_err) (want := it_mod x K KO); [apply (ok_mod x K KO)|exact HI2|exact D1|exact C2|]. intros [] m3 HI3 C3 L3 V3.
+    apply wp_set_mode.
+    assert (HI4 : Inv (set_nth_list d1 0 (enc_mode MListen)) m3).
+    { destruct HI3 as [O3 [A3 [B3 [P3 N3]]]]. split; [exact O3|]. rewrite dmode_set_mode. split; [rewrite C3; exact I|].
+      rewrite cold_other by (unfold COLD; discriminate). split; [exact B3|]. split; [exact I|exact N3]. }
+    apply (ok_rx x K KO); [apply HI4|apply ready_stby, C3| |].
+    { apply (cover_listen x K KO); [exact LI|]. destruct HI3 as [_ [_ [B3 _]]]. specialize (B3 K1). unfold it_base in B3.
+      apply valid_all_app in B3. destruct B3 as [Bi _]. repeat (apply valid_all_app; split); try assumption.
+      apply (valid_all_le m2); [|exact V2]. intros i Hi. apply L3, Hi. }
+    intros r m4 O4 L4 S4 M4 N4 P4.
+    assert (HI5 : Inv (set_nth_list d1 0 (enc_mode MListen)) m4).
+    { destruct HI4 as [O [A [C [P N]]]]. split; [exact O4|]. rewrite dmode_set_mode in *. split; [destruct M4 as [-> | ->]; [exact A|right; reflexivity]|].
+      split; [intros Hc; eapply valid_all_le; [exact L4|apply C, Hc]|]. split; [exact I|]. intros F E. apply (N F). apply (N4 F E). }
+    destruct r as [[]|e]; [apply post_ok; exact HI5|]. destruct (P4 e eq_refl) as [P|[P|[_ [_ [_ Du]]]]]; try (apply post_pin; [exact HI5|tauto]). discriminate Du.
+  Qed.
 End Inv.
